@@ -853,8 +853,10 @@ impl Parser {
                             Some(Lexem::Comma) => {}
                             Some(Lexem::RawString(_)) => {
                                 self.drop_lexem();
-                                let group_field = self.parse_expr().unwrap().unwrap();
-                                group_by_fields.push(group_field);
+                                match self.parse_expr()? {
+                                    Some(group_field) => group_by_fields.push(group_field),
+                                    None => return Err(String::from("Error parsing GROUP BY expression")),
+                                }
                             }
                             _ => {
                                 self.drop_lexem();
